@@ -180,3 +180,13 @@ Proof.
   - cbn. auto.
   - vm_compute. reflexivity.
 Qed.
+
+(* the known-finding class: replicated state equal, a conflict copy with derived attributes on one replica only *)
+Example C08_witness_known :
+  let d1 := [(1, e1a); (1001, Live (5, 1) [Some ((5, 1), Some 50); Some ((5, 1), Some 51); Some ((5, 1), Some 52)])] in
+  known (CHist [0; 1] [] [d1; d1] [[(1, []); (1001, [(8, 20)])]; [(1, []); (1001, [])]]) = true /\
+  pcheck (CHist [0; 1] [] [d1; d1] [[(1, []); (1001, [(8, 20)])]; [(1, []); (1001, [])]]) = false /\
+  (* not in the class: the replicated state itself differs, or no uuid conflict happened *)
+  known (CHist [0; 1] [] [d1; [(1, e1a)]] [[]; []]) = false /\
+  known (CHist [0; 1] [] [[(1, e1a)]; [(1, e1a)]] [[(1, [(8, 20)])]; [(1, [])]]) = false.
+Proof. vm_compute. repeat split. Qed.
